@@ -33,7 +33,7 @@ m = dict(version=1,
                        'source -> symbolic execution against sidecar contracts -> named SMT obligations (z3 5.1, cvc5, z3 4.8); '
                        'native replay / run-time contract monitoring under /venv/bin/python')],
          checks=checks,
-         notes='See DESIGN.md. Exit codes: 0 held, 1 VIOLATION, 2 undecided, 3 checker error.',
+         notes='See DESIGN.md. Exit codes: 0 held (a DEGRADED line means: a function left the subset the engine reads, nothing proved about it on that run, run-time contract monitoring on small-scope histories stood in, evidence level other), 1 VIOLATION, 2 undecided, 3 checker error.',
          not_applicable=na)
 json.dump(m, open(os.path.join(ROOT, 'MANIFEST.json'), 'w'), indent=1)
 print('checks:', [c['property_id'] for c in checks], 'n/a:', [x['property_id'] for x in na])
